@@ -7,7 +7,14 @@ Entry levels
         clients.Study.suggest on a local (RAM) servicer
                                         families `service`, `gp` (entry 'service')
   (iii) get_default_parameters / seed_with_default on flat and conditional
-        spaces                          family `defaults`
+        spaces                          family `defaults`; the GP designers' own
+                                        centre + quasi-random seeding on an
+                                        empty study: family `gp_seeding`
+
+`designers` also drives random_sample.sample_parameters (flat spaces only: a
+helper without a refusal contract).  The expensive `gp` family (GP fitted on
+a history; reduced optimiser budgets at designer level, stock settings at
+service level) is a fixed-size seeded sample dealt out to the workers.
 
 A case is (space spec, algorithm, options, metrics, pre-history, rounds).  A
 round = suggest(count) followed by feedback on the returned suggestions
@@ -39,13 +46,17 @@ RULE = ('Hypothesis-generated (flat_space x algorithm x constructor options x '
         'batch size 1..5/None x history of completed / extreme-metric / '
         'infeasible / duplicate / active trials) at three entry levels '
         '(designer objects, algorithm names through clients.Study.suggest on a '
-        'RAM servicer, default/centre seeding incl. conditional spaces). '
+        'RAM servicer, default/centre seeding incl. conditional spaces). The '
+        'gp family is a seeded sample of 10 (quick) / 66 (thorough) such cases '
+        '(3:2 designer level with reduced optimiser budgets : service level '
+        'with stock settings). '
         'non-trivial = at least one suggestion was answered and judged AND the '
         'space has >=2 parameter kinds or a LOG/REVERSE_LOG scale or a '
         'degenerate domain (or is conditional, defaults family) AND, for '
         'history-dependent algorithms (eagle, nsga2, cmaes, bocs, harmonica, '
         'GP), a suggestion was answered after a non-empty history had been fed '
-        'back. distinct = SHA-1 of the canonical JSON case.')
+        'back (gp_seeding: the empty-study seeding itself is the subject). '
+        'distinct = SHA-1 of the canonical JSON case.')
 ASSUMPTIONS = [
     'membership is judged on Trial(Suggestion).parameters[name].value '
     '(numpy scalars are read as the python number they hold); an INTEGER '
@@ -62,9 +73,6 @@ ASSUMPTIONS = [
     'service level uses the stock settings',
     'user-supplied default values outside the domain are not generated',
 ]
-
-# Known finding switches (generator avoids the trigger, counted in a class).
-AVOID = {}
 
 STATELESS = ('random', 'random_sample', 'quasi_random', 'grid', 'grid_shuffle')
 CHEAP = ('random', 'random_sample', 'quasi_random', 'grid', 'grid_shuffle',
@@ -192,6 +200,10 @@ def _opts_for(algo):
     return st.fixed_dictionaries({
         'num_init_samples': st.sampled_from([1, 2, 4, 10]),
         'acquisition_samples': st.sampled_from([5, 100])})
+  if algo in GP:
+    # mostly reduced acquisition / ARD budgets; sometimes the stock settings
+    return st.fixed_dictionaries(
+        {'stock': st.sampled_from([False] * 7 + [True])})
   return st.just({})
 
 
